@@ -33,10 +33,19 @@ func runWipe(env *execenv.Env) error {
 		_ = env.Backend.Close()
 		return err
 	}
-	err = env.Backend.LocalConfig().RemoveAll("git-bug")
+	// the section no longer exists once its last key is gone, and removing a section
+	// that does not exist is an error
+	remaining, err := env.Backend.LocalConfig().ReadAll("git-bug")
 	if err != nil {
 		_ = env.Backend.Close()
 		return err
+	}
+	if len(remaining) > 0 {
+		err = env.Backend.LocalConfig().RemoveAll("git-bug")
+		if err != nil {
+			_ = env.Backend.Close()
+			return err
+		}
 	}
 
 	storage := env.Backend.LocalStorage()
